@@ -90,6 +90,8 @@ func readCableLabsEbp(data []byte) (ebp *cableLabsEbp, err error) {
 	}
 
 	index := uint8(0)
+	// short reports whether n more bytes cannot be read at index (which is a uint8 and must not wrap)
+	short := func(n int) bool { return int(index)+n > len(data) || int(index)+n > 0xFF }
 
 	ebp.DataFieldTag = data[index]
 	index += uint8(1)
@@ -111,16 +113,25 @@ func readCableLabsEbp(data []byte) (ebp *cableLabsEbp, err error) {
 	}
 
 	if ebp.ExtensionFlag() {
+		if short(1) {
+			return nil, gots.ErrInvalidEBPLength
+		}
 		ebp.ExtensionFlags = data[index]
 		index += uint8(1)
 	}
 
 	if ebp.SapFlag() {
+		if short(1) {
+			return nil, gots.ErrInvalidEBPLength
+		}
 		ebp.SapType = data[index]
 		index += uint8(1)
 	}
 
 	if ebp.GroupingFlag() {
+		if short(1) {
+			return nil, gots.ErrInvalidEBPLength
+		}
 		var group byte
 		var groupExtFlag bool
 		groupExtFlag = data[index]&0x80 != 0
@@ -140,6 +151,9 @@ func readCableLabsEbp(data []byte) (ebp *cableLabsEbp, err error) {
 	}
 
 	if ebp.TimeFlag() {
+		if short(8) {
+			return nil, gots.ErrInvalidEBPLength
+		}
 		ebp.TimeSeconds = binary.BigEndian.Uint32(data[index : index+4])
 		index += uint8(4)
 
@@ -148,6 +162,9 @@ func readCableLabsEbp(data []byte) (ebp *cableLabsEbp, err error) {
 	}
 
 	if ebp.PartitionFlag() {
+		if short(1) {
+			return nil, gots.ErrInvalidEBPLength
+		}
 		ebp.PartitionFlags = data[index]
 		index += uint8(1)
 	}
